@@ -27,6 +27,8 @@ set_option maxRecDepth 100000
 theorem amountChecked_exact (xs : List UInt64) (r : UInt64) (h : amountChecked xs = some r) :
     r.toNat = natSum xs := amountChecked_some xs r h
 
+example : amountChecked [1, 2, 3] = some 6 := by decide
+
 /-! ## AmountSplit -/
 
 /-- Σ AmountSplit(a) = a (in ℕ: no entry and no partial sum wraps). -/
@@ -69,6 +71,7 @@ theorem feesForCount_wrap (n : Nat) (ppk : UInt64) :
     (feesForCount n ppk).toNat = (((n * ppk.toNat) % 2 ^ 64 + 999) % 2 ^ 64) / 1000 := feesForCount_toNat n ppk
 
 example : feesForCount 3 1000 = 3 ∧ feesForCount 3 250 = 1 ∧ feesForCount 0 2500 = 0 := by decide
+example : 3 * (1000 : UInt64).toNat + 999 < 2 ^ 64 := by decide
 /-- wrap: `2 · 2^63` accumulates to 0. -/
 example : feesForCount 2 (UInt64.ofNat (2 ^ 63)) = 0 := by decide
 
@@ -83,6 +86,8 @@ theorem feesForProofs_wrap (m : Mint) (ps : List P) :
 
 example : feesForProofs { activeId := 1, activePpk := 250, inactive := [(2, 999)] }
     [⟨4, 1, 0⟩, ⟨4, 2, 1⟩, ⟨1, 7, 2⟩] = 2 := by decide
+example : ppkSum { activeId := 1, activePpk := 250, inactive := [(2, 999)] }
+    [⟨4, 1, 0⟩, ⟨4, 2, 1⟩, ⟨1, 7, 2⟩] + 999 < 2 ^ 64 := by decide
 
 /-- The mint's `TransactionFees` is `⌈Σ ppk / 1000⌉` over its own keyset table (no wrap) … -/
 theorem transactionFees_eq_ceil (ppkOfKeyset : Nat → UInt64) (inputs : List P)
@@ -98,6 +103,12 @@ theorem wallet_fee_eq_mint_fee (m : Mint) (ppkOfKeyset : Nat → UInt64) (ps : L
   rw [List.map_congr_left h]
 
 example : transactionFees (fun _ => 1000) [⟨1, 1, 0⟩, ⟨1, 1, 1⟩, ⟨2, 1, 2⟩, ⟨2, 1, 3⟩] = 4 := by decide
+example : natSum (([⟨1, 1, 0⟩, ⟨1, 1, 1⟩, ⟨2, 1, 2⟩, ⟨2, 1, 3⟩] : List P).map (fun _ => (1000 : UInt64))) + 999
+    < 2 ^ 64 := by decide
+/-- a wallet table that agrees with the mint's on the keysets of the proofs -/
+example : ∀ p ∈ ([⟨4, 1, 0⟩, ⟨4, 2, 1⟩] : List P),
+    ({ activeId := 1, activePpk := 250, inactive := [(2, 999)] } : Mint).ppkOf p.ks
+      = (fun k => if k = 1 then 250 else 999) p.ks := by decide
 
 /-! ## select_sound -/
 
@@ -108,6 +119,9 @@ theorem select_sound_u64 {srt : Sorter} (hs : srt.OK) {m : Mint} {proofs sel : L
     (∃ rest, (sel ++ rest).Perm proofs) ∧ ¬ (proofsAmount sel < amount + feeOpt m inc sel) :=
   ⟨(selectProofsToSend_ok_u64 hs h).1, (selectProofsToSend_ok_u64 hs h).2.1⟩
 
+example : selectProofsToSend stableSorter { activeId := 1, activePpk := 1000, inactive := [] }
+    [⟨1, 1, 0⟩, ⟨2, 1, 1⟩, ⟨8, 1, 2⟩] 2 true = .ok [⟨2, 1, 1⟩, ⟨1, 1, 0⟩, ⟨8, 1, 2⟩] := by decide
+
 /-- In ℕ: a successful `selectProofsToSend` returns a sub-multiset of the holdings worth at least
     `amount + fee(selected)`, provided the holdings' value plus the fee of spending all of them, the ppk sum
     and `amount + that fee` fit 64 bits. -/
@@ -116,6 +130,10 @@ theorem select_sound_toSend {srt : Sorter} (hs : srt.OK) {m : Mint} {proofs sel 
     (hn : NoWrap m inc proofs) (hA : amount.toNat + feeOptN m inc proofs < 2 ^ 64) :
     (∃ rest, (sel ++ rest).Perm proofs) ∧ amount.toNat + feeOptN m inc sel ≤ amountN sel :=
   selectProofsToSend_ok_nat hs h hn hA
+
+example : NoWrap { activeId := 1, activePpk := 1000, inactive := [] } true [⟨1, 1, 0⟩, ⟨2, 1, 1⟩, ⟨8, 1, 2⟩] ∧
+    (2 : UInt64).toNat + feeOptN { activeId := 1, activePpk := 1000, inactive := [] } true
+      [⟨1, 1, 0⟩, ⟨2, 1, 1⟩, ⟨8, 1, 2⟩] < 2 ^ 64 := ⟨⟨by decide, fun _ => by decide⟩, by decide⟩
 
 /-- What happens on wrap-around: without `hA` the ℕ statement fails. `amount = 2^64-1`, one proof of
     `2^64-1` at ppk 1000: `remainingAmount + fees` and `amount + fees` wrap to 0, both tests pass, and the
@@ -183,6 +201,7 @@ theorem send_exact_offline {srt : Sorter} (hs : srt.OK) {m : Mint} {inactive act
 /-- amount 5 with fees: `[2,1,4,1]` = 8 = 5 + ⌈(1000+250+500+500)/1000⌉. -/
 example : getProofsForAmount stableSorter exMint exInactive exActive 5 true
     = .offline [⟨2, 2, 0⟩, ⟨1, 3, 1⟩, ⟨4, 1, 3⟩, ⟨1, 1, 2⟩] := by decide
+example : (5 : UInt64).toNat + feeOptN exMint true exInactive + feeOptN exMint true exActive < 2 ^ 64 := by decide
 
 /-- `send_exact_swap_nofee`: without fees the proofs created by the swap for the recipient are worth exactly
     `amount` (ℕ sum; they are the set bits of `amount`). -/
@@ -219,6 +238,8 @@ theorem redeemFee_eq_transactionFees (m : Mint) (ppkOfKeyset : Nat → UInt64) (
   induction send with
   | nil => rfl
   | cons x xs ih => simp [List.replicate_succ, ih, h]
+
+example : (fun (_ : Nat) => (1000 : UInt64)) (Mint.mk 1 1000 []).activeId = (Mint.mk 1 1000 []).activePpk := rfl
 
 /-- `send_exact_fee`, the full property: with `includeFees` the proofs handed over by the swap path are worth
     `amount +` the fee the mint will charge for those very proofs. -/
@@ -284,6 +305,8 @@ example : getProofsForAmount stableSorter k6Mint [] [⟨8, 1, 0⟩] 4 true =
               changeAmount := 1, change := [1] } ∧
     feesForCount ((amountSplit 4).length + (amountSplit (feesToReceive k6Mint.activePpk 4 true)).length)
       k6Mint.activePpk = feesToReceive k6Mint.activePpk 4 true := ⟨by decide, by decide⟩
+/-- … and of the converse: `[2,4]` is worth 6 = 4 + the mint's fee 2 for two proofs. -/
+example : natSum ([2, 4] : List UInt64) = (4 : UInt64).toNat + (redeemFee k6Mint [2, 4]).toNat := by decide
 
 /-! ## send_succeeds -/
 
@@ -402,6 +425,10 @@ theorem send_succeeds_no_inactive' {srt : Sorter} (hs : srt.OK) {m : Mint} {acti
 example : NoWrap k6Mint true k6Active ∧
     (3 : UInt64).toNat + (feesToReceive k6Mint.activePpk 3 true).toNat + feeN k6Mint k6Active ≤ amountN k6Active :=
   ⟨⟨by decide, fun _ => by decide⟩, by decide⟩
+/-- in the property's words: amount 3 + fee of the four proofs sent 4 + fee of the four proofs held 4 ≤ 15 -/
+example : (sendSplit k6Mint.activePpk 3 true).length * k6Mint.activePpk.toNat + 999 < 2 ^ 64 ∧
+    (3 : UInt64).toNat + (redeemFee k6Mint (sendSplit k6Mint.activePpk 3 true)).toNat + feeN k6Mint k6Active
+      ≤ amountN k6Active := by decide
 
 /-! ## splitWalletTarget and the swap request -/
 
@@ -438,7 +465,8 @@ theorem swap_balanced {srt : Sorter} (hs : srt.OK) {m : Mint} {inactive active :
 /-- `k6_witness` meets the hypotheses: inputs `[4,2,1,8]` = 15 = send 6 + change 5 + fee 4. -/
 example : NoWrap k6Mint true ([] ++ k6Active) ∧
     (3 : UInt64).toNat + (feesToReceive k6Mint.activePpk 3 true).toNat + feeOptN k6Mint true []
-      + feeOptN k6Mint true k6Active < 2 ^ 64 := ⟨⟨by decide, fun _ => by decide⟩, by decide⟩
+      + feeOptN k6Mint true k6Active < 2 ^ 64 ∧ (([] : List P) ++ k6Active).length < 2 ^ 63 :=
+  ⟨⟨by decide, fun _ => by decide⟩, by decide, by decide⟩
 
 /-! ## the sorters the correspondence uses -/
 
@@ -490,6 +518,11 @@ theorem repair_succeeds {srt : Sorter} {m : Mint} {inactive active : List P} {am
     (hA : amount.toNat + feeOptN m inc (inactive ++ active) ≤ amountN (inactive ++ active)) :
     ∃ sel, selectProofsForAmountFixed srt m inactive active amount inc = .ok sel :=
   selectProofsForAmountFixed_succeeds hn hA
+
+example : NoWrap discMint true (discInactive ++ discActive) ∧
+    (7 : UInt64).toNat + feeOptN discMint true (discInactive ++ discActive) ≤ amountN (discInactive ++ discActive) ∧
+    (7 : UInt64).toNat + feeOptN discMint true discInactive + feeOptN discMint true discActive < 2 ^ 64 :=
+  ⟨⟨by decide, fun _ => by decide⟩, by decide, by decide⟩
 
 /-- both recorded witnesses are selected by the repaired function -/
 example : selectProofsForAmountFixed stableSorter discMint discInactive discActive 7 true
